@@ -1,12 +1,14 @@
 #!/bin/sh
-# process_seeds.sh Cxx [Cyy ...]: for k in 1 2: run the property's check on the patched private copy, confirm the seed, store it
+# process_seeds.sh Cxx [Cyy ...]: for each patch_k: run the property's check on the patched private copy, confirm the seed, store it
+# SEEDRUN=/tmp/seedrun<lane> selects the private copy (tools/seedrun_setup.sh <lane>)
+SR=${SEEDRUN:-/tmp/seedrun}
 for pid in "$@"; do for k in 1 2 3 4 5 6 7 8 9 10; do
   [ -f /tmp/mut/$pid/_out/patch_$k.diff ] || continue
-  /tmp/seedrun/run.sh /tmp/mut/$pid/_out/patch_$k.diff $pid > /tmp/seedrun/proc_${pid}_$k.txt 2>&1
-  if grep -q "^VIOLATION.*no-failing-input-found" /tmp/seedrun/last_$pid.log; then det=caught-no-input
-  elif grep -q "^VIOLATION" /tmp/seedrun/last_$pid.log; then det=caught-with-input
+  $SR/run.sh /tmp/mut/$pid/_out/patch_$k.diff $pid > $SR/proc_${pid}_$k.txt 2>&1
+  if grep -q "^VIOLATION.*no-failing-input-found" $SR/last_$pid.log; then det=caught-no-input
+  elif grep -q "^VIOLATION" $SR/last_$pid.log; then det=caught-with-input
   else det=missed; fi
   conf=$(/verif/tools/confirm_seed.sh $pid $k | tail -1)
-  echo "$pid-$k: detection=$det confirm=$conf :: $(grep -E '^  fails\[|^  broken\[' /tmp/seedrun/last_$pid.log | head -2 | cut -c1-220 | tr '\n' ' ')"
-  if [ "$conf" = "CONFIRMED" ]; then python3 /verif/tools/store_seed.py $pid $k $det $pid > /dev/null; fi
+  echo "$pid-$k: detection=$det confirm=$conf :: $(grep -E '^  fails\[|^  broken\[' $SR/last_$pid.log | head -2 | cut -c1-220 | tr '\n' ' ')"
+  if [ "$conf" = "CONFIRMED" ]; then SEEDRUN=$SR python3 /verif/tools/store_seed.py $pid $k $det $pid > /dev/null; fi
 done; done
